@@ -5,6 +5,7 @@ import (
 	"math/rand"
 	"os"
 	"path/filepath"
+	"strings"
 	"sync"
 	"time"
 )
@@ -77,9 +78,19 @@ func getFilePath(path string, suffix string) string {
 func RLockExists(path string) bool {
 	dir := filepath.Dir(path)
 	basename := filepath.Base(path)
-	match, _ := filepath.Glob(filepath.Join(dir, "."+basename) + ".*" + RLockFileSuffix)
+	match, _ := filepath.Glob(escapeGlobPattern(filepath.Join(dir, "."+basename)) + ".*" + RLockFileSuffix)
 	return match != nil
 }
+
+// escapeGlobPattern makes a file path match only itself in filepath.Glob.
+func escapeGlobPattern(path string) string {
+	if os.PathSeparator != '\\' {
+		path = strings.Replace(path, "\\", "\\\\", -1)
+	}
+	return globMetaCharacterReplacer.Replace(path)
+}
+
+var globMetaCharacterReplacer = strings.NewReplacer("[", "[[]", "*", "[*]", "?", "[?]")
 
 func LockExists(path string) bool {
 	return Exists(LockFilePath(path))
